@@ -312,6 +312,7 @@ static parsec_context_t *init_ctx(int threads, const char *sched)
 {
     if (sched) setenv("PARSEC_MCA_mca_sched", sched, 1);
     setenv("PARSEC_MCA_bind_threads", "0", 1);     /* no core binding: many checks share the machine */
+    setenv("PARSEC_MCA_dtd_task_hash_size", "64", 1); setenv("PARSEC_MCA_dtd_tile_hash_size", "64", 1);   /* 2^16-bucket tables cost ~1 ms per DTD pool */
     int argc = 1; char *argv0[] = { (char *)"c06", NULL }; char **argv = argv0;
     parsec_context_t *p = parsec_init(threads, &argc, &argv);
     if (!p) { fprintf(stderr, "parsec_init failed\n"); _exit(3); }
@@ -418,7 +419,7 @@ static void leg_replay(int slice, int nslices, void *arg_)
 int main(int argc, char **argv)
 {
     wr_init(argc, argv, "C06");
-    int jobs = 8, N = 6, Nfree = 0, count_only = 0, reps = 1; const char *only = NULL, *kinds = "abd";
+    int jobs = 8, N = 6, Nfree = 0, count_only = 0, reps = 1; const char *only = NULL, *kinds = "abd", *plan = "5:abd:0,6:ad:0";
     for (int i = 1; i < argc; i++) {
         if (!strcmp(argv[i], "--jobs") && i + 1 < argc) jobs = atoi(argv[++i]);
         else if (!strcmp(argv[i], "--leg") && i + 1 < argc) only = argv[++i];
@@ -426,6 +427,7 @@ int main(int argc, char **argv)
         else if (!strcmp(argv[i], "--len-free") && i + 1 < argc) Nfree = atoi(argv[++i]);
         else if (!strcmp(argv[i], "--kinds") && i + 1 < argc) kinds = argv[++i];
         else if (!strcmp(argv[i], "--reps") && i + 1 < argc) reps = atoi(argv[++i]);
+        else if (!strcmp(argv[i], "--plan") && i + 1 < argc) plan = argv[++i];
         else if (!strcmp(argv[i], "--count")) count_only = 1;
     }
     if (!Nfree) Nfree = N;
@@ -437,17 +439,22 @@ int main(int argc, char **argv)
         wr_run_legs("replay", 1, leg_replay, cas, 30, NULL);
         return wr_finish();
     }
-    /* leg "orders": bounds are iterated upwards; each bound only adds the histories of exactly that length */
+    /* free-running configuration box first (short), then the deciding legs up to the deadline */
+    if (!only || !strcmp(only, "threads")) { leg_arg_t la = { Nfree, 0, kinds, 0, NULL, reps }; wr_run_legs("threads", 9, leg_threads, &la, 40, aux); }
+    /* leg "orders": plan = list of len:kinds:lo ; lo (histories of length <= lo were covered by an earlier, complete entry) */
     if (!only || !strcmp(only, "orders")) {
-        int lo = 0;
-        for (int n = (N > 6 ? 6 : N); n <= N; n++) {
+        char pl[256]; snprintf(pl, sizeof(pl), "%s", plan); int all_exh = 1;
+        for (char *t = strtok(pl, ","); t; t = strtok(NULL, ",")) {
+            int n = 0, lo = 0; static char kd[8][8]; static int ki = 0; char *k = kd[ki++ % 8];
+            if (sscanf(t, "%d:%7[a-d]:%d", &n, k, &lo) < 2) { fprintf(stderr, "bad plan entry %s\n", t); return 2; }
             if (wr_expired()) break;
-            char name[32]; snprintf(name, sizeof(name), "orders-len%d", n);
-            leg_arg_t la = { n, lo, kinds, 1, NULL, 1 };
+            if (!all_exh) lo = 0;
+            char name[48]; snprintf(name, sizeof(name), "orders-len%d-%s", n, k);
+            leg_arg_t la = { n, lo, k, 1, NULL, 1 };
+            int v0 = wr_total_violations;
             wr_run_legs(name, jobs, leg_orders, &la, 30, aux);
-            lo = n;
+            if (wr_total_violations != v0 || wr_expired()) all_exh = 0;
         }
     }
-    if (!only || !strcmp(only, "threads")) { leg_arg_t la = { Nfree, 0, kinds, 0, NULL, reps }; wr_run_legs("threads", 9, leg_threads, &la, 40, aux); }
     return wr_finish();
 }
